@@ -1259,3 +1259,309 @@ def _pathbuf_misc(I, a, d):
     if d["segs"][-1] == "clear":
         peel(a[0]).sb = SBytes()
     return UNIT
+
+
+# ---------------------------------------------------------------------------
+# serde_json: to_writer / from_slice
+
+from . import serde as _serde  # noqa: E402
+
+
+@T.path("serde_json::to_writer")
+def _json_to_writer(I, a, d):
+    """serde_json::to_writer hands the text to the writer token by token (many small write_all calls).  The
+    model emits it in three pieces (first byte, middle, last byte): enough to make the writer observe that the
+    text does not arrive in one call, without one call per token."""
+    r = _serde._to_string(I, [a[1]], d)
+    if r.vname == "Err":
+        return r
+    text = as_sbytes(r.fields[0])
+    ln = text.length()
+    if is_sym(ln):
+        pieces = [sb.slice_(text, 0, 1, I.w), sb.slice_(text, 1, I._sub(ln, 1), I.w), sb.slice_(text, I._sub(ln, 1), ln, I.w)]
+    elif ln >= 3:
+        pieces = [sb.slice_(text, 0, 1, I.w), sb.slice_(text, 1, ln - 1, I.w), sb.slice_(text, ln - 1, ln, I.w)]
+    else:
+        pieces = [text]
+    w = a[0] if isinstance(a[0], Ref) else Ref(ValLoc(a[0]), True)
+    for pc in pieces:
+        rr = I.call_trait_method("Write", "write_all", [w, BytesRef(pc, "bytes")])
+        if rr.vname == "Err":
+            return ERR(_serde.SerdeError("io"))
+    return OK(UNIT)
+
+
+@T.path("serde_json::from_slice")
+def _json_from_slice(I, a, d):
+    d2 = dict(d)
+    d2["raw"] = d.get("raw", "").replace("from_slice", "from_str")
+    return _serde._from_str(I, a, d2)
+
+
+@T.path("serde_json::to_string_pretty", "serde_json::to_vec_pretty")
+def _json_pretty(I, a, d):
+    raise Inconclusive("pretty-printed JSON is not modelled")
+
+
+# ---------------------------------------------------------------------------
+# tempfile::Builder and TempPath
+
+from . import fs as _fs  # noqa: E402
+
+
+class TempBuilder:
+    rust_type = "Builder"
+
+    def __init__(self):
+        self.prefix, self.suffix = b".tmp", b""
+
+
+@T.path("tempfile::Builder::new")
+def _tb_new(I, a, d):
+    return TempBuilder()
+
+
+@T.path("tempfile::Builder::prefix", "tempfile::Builder::suffix", "tempfile::Builder::rand_bytes", "tempfile::Builder::append",
+        "tempfile::Builder::permissions", "tempfile::Builder::keep", "tempfile::Builder::disable_cleanup")
+def _tb_set(I, a, d):
+    b = peel(a[0])
+    which = d["segs"][-1]
+    if which in ("prefix", "suffix"):
+        txt = as_sbytes(a[1])
+        if not txt.is_concrete():
+            raise Inconclusive("tempfile::Builder::%s with symbolic text" % which)
+        setattr(b, which, txt.concrete())
+    elif which in ("keep", "disable_cleanup"):
+        raise Inconclusive("tempfile::Builder::%s" % which)
+    return a[0]
+
+
+def _tb_make(I, b, dirpath):
+    t = _fs.new_temp_in(I, dirpath)
+    return t
+
+
+@T.path("tempfile::Builder::tempfile_in")
+def _tb_tempfile_in(I, a, d):
+    b = peel(a[0])
+    return _fs.wrap(I, lambda: _tb_make(I, b, as_sbytes(a[1])))
+
+
+@T.path("tempfile::Builder::tempfile")
+def _tb_tempfile(I, a, d):
+    b = peel(a[0])
+    return _fs.wrap(I, lambda: _tb_make(I, b, SBytes(b"/tmp")))
+
+
+@T.path("tempfile::NamedTempFile::into_temp_path")
+def _ntf_into_temp_path(I, a, d):
+    return peel(a[0])        # same object: path + cleanup on drop
+
+
+@T.path("tempfile::TempPath::persist")
+def _tp_persist(I, a, d):
+    r = _fs._persist(I, a, False)
+    return OK(UNIT) if r.vname == "Ok" else r
+
+
+@T.path("tempfile::TempPath::persist_noclobber")
+def _tp_persist_noclobber(I, a, d):
+    r = _fs._persist(I, a, True)
+    return OK(UNIT) if r.vname == "Ok" else r
+
+
+@T.path("tempfile::TempPath::close")
+def _tp_close(I, a, d):
+    return _fs._ntf_close(I, a, d)
+
+
+@T.path("tempfile::NamedTempFile::reopen")
+def _ntf_reopen(I, a, d):
+    t = peel(a[0])
+    return _fs.wrap(I, lambda: _fs.op_open(I, t.path, read=True, write=True))
+
+
+@T.path("tempfile::NamedTempFile::into_parts")
+def _ntf_into_parts(I, a, d):
+    t = peel(a[0])
+    return Agg("tuple", None, [t.file, t])
+
+
+# ---------------------------------------------------------------------------
+# more std::fs
+
+@T.path("std::fs::read_link", "std::path::Path::read_link")
+def _fs_read_link(I, a, d):
+    def go():
+        p, n, ino = I.env.vfs.walk(as_sbytes(a[0]), follow_last=False)
+        _fs.fail_if_injected(I.env.act("readlink", as_sbytes(a[0]), mutating=False))
+        if ino is None:
+            raise _fs.FsErr("NotFound")
+        if ino.kind != "symlink":
+            raise _fs.FsErr("InvalidInput")
+        return mk_pathbuf(ino.target)
+    return _fs.wrap(I, go)
+
+
+@T.path("std::fs::exists")
+def _fs_exists(I, a, d):
+    def go():
+        try:
+            _fs.op_stat(I, as_sbytes(a[0]), True)
+            return True
+        except _fs.FsErr as e:
+            if e.kind == "NotFound":
+                return False
+            raise
+    return _fs.wrap(I, go)
+
+
+@T.path("std::path::Path::is_symlink")
+def _path_is_symlink(I, a, d):
+    try:
+        m = _fs.op_stat(I, as_sbytes(a[0]), False)
+        return m.kind == "symlink"
+    except _fs.FsErr:
+        return False
+
+
+@T.path("std::io::BufReader::with_capacity")
+def _bufreader_with_capacity(I, a, d):
+    return _fs.BufReaderObj(a[1])
+
+
+# ---------------------------------------------------------------------------
+# BufRead::fill_buf / consume (std BufReader over a File)
+
+@T.trait("BufRead", "fill_buf")
+def _bufread_fill_buf(I, a, d):
+    br = peel(a[0])
+    f = peel(br.inner)
+    if isinstance(f, _fs.NamedTempFileObj):
+        f = f.file
+    if not isinstance(f, _fs.FileObj):
+        raise Inconclusive("fill_buf over %r" % (f,))
+    if getattr(br, "pending", None) is not None:
+        raise Inconclusive("fill_buf after line reads")
+
+    def go():
+        _fs.fail_if_injected(I.env.act("read", f.path, mutating=False, fobj=f))
+        if f.inode.kind == "dir":
+            raise _fs.FsErr("IsADirectory")
+        content = f.inode.sb
+        total = content.length()
+        off = f.offset
+        if is_sym(total) or is_sym(off):
+            rem_small = I.w.branch(z3.ULE(sb._bv(total), sb._bv(off) + 8192), "fill_buf-all")
+        else:
+            rem_small = total <= off + 8192
+        end = total if rem_small else (off + 8192 if not is_sym(off) else z3.simplify(sb._bv(off) + 8192))
+        return BytesRef(sb.slice_(content, off, end, I.w), "bytes")
+    return _fs.wrap(I, go)
+
+
+@T.trait("BufRead", "consume")
+def _bufread_consume(I, a, d):
+    br = peel(a[0])
+    f = peel(br.inner)
+    if isinstance(f, _fs.NamedTempFileObj):
+        f = f.file
+    n = a[1]
+    f.offset = (f.offset + n) if not (is_sym(f.offset) or is_sym(n)) else z3.simplify(sb._bv(f.offset) + sb._bv(n))
+    return UNIT
+
+
+@T.path("std::io::BufReader::buffer")
+def _bufreader_buffer(I, a, d):
+    return BytesRef(SBytes(), "bytes")
+
+
+@T.path("std::io::BufReader::get_ref", "std::io::BufReader::get_mut", "std::io::BufReader::into_inner")
+def _bufreader_inner(I, a, d):
+    br = peel(a[0])
+    if d["segs"][-1] == "into_inner":
+        return br.inner
+    return br.inner if isinstance(br.inner, Ref) else Ref(ValLoc(br.inner), True)
+
+
+# ---------------------------------------------------------------------------
+# modification times
+
+@T.path("std::fs::Metadata::modified", "std::fs::Metadata::accessed", "std::fs::Metadata::created")
+def _meta_modified(I, a, d):
+    m = peel(a[0])
+    if d["segs"][-1] != "modified":
+        raise Inconclusive("Metadata::%s" % d["segs"][-1])
+    t = getattr(m, "mtime", None)
+    if t is None:
+        raise Inconclusive("modification time of %r" % (m,))
+    return OK(_fs.SystemTimeObj(t))
+
+
+def _systemtime_eq(self, I, other):
+    other = peel(other)
+    a_, b_ = self.millis, getattr(other, "millis", None)
+    if b_ is None:
+        return False
+    if is_sym(a_) or is_sym(b_):
+        return sb._bv(a_) == sb._bv(b_)
+    return a_ == b_
+
+
+_fs.SystemTimeObj.rust_eq = _systemtime_eq
+
+
+@T.path("std::fs::File::set_modified", "std::fs::File::set_times")
+def _file_set_modified(I, a, d):
+    raise Inconclusive("File::set_modified")
+
+
+# ---------------------------------------------------------------------------
+# more of async_std::fs / tokio::fs
+
+def _reg_more_async_fs(P):
+    from .asyncrt import _afut
+
+    @T.path(P + "::fs::read_to_string")
+    def _read_to_string(I, a, d):
+        p = as_sbytes(a[0])
+
+        def go():
+            def inner():
+                f = _fs.op_open(I, p, read=True)
+                data = _fs.op_read_all(I, f)
+                f.closed = True
+                if not _fs.utf8_check(I, data):
+                    raise _fs.FsErr("InvalidData")
+                return mk_string(data)
+            return _fs.wrap(I, inner)
+        return _afut(go, "fs::read_to_string")
+
+    @T.path(P + "::fs::create_dir")
+    def _create_dir(I, a, d):
+        p = as_sbytes(a[0])
+        return _afut(lambda: _fs.wrap(I, lambda: _fs.op_mkdir(I, p)), "fs::create_dir")
+
+    @T.path(P + "::fs::try_exists")
+    def _try_exists(I, a, d):
+        p = as_sbytes(a[0])
+
+        def go():
+            def inner():
+                try:
+                    _fs.op_stat(I, p, True)
+                    return True
+                except _fs.FsErr as e:
+                    if e.kind == "NotFound":
+                        return False
+                    raise
+            return _fs.wrap(I, inner)
+        return _afut(go, "fs::try_exists")
+
+    @T.path(P + "::fs::read_link")
+    def _read_link(I, a, d):
+        return _afut(lambda: _fs_read_link(I, a, d), "fs::read_link")
+
+
+_reg_more_async_fs("async_std")
+_reg_more_async_fs("tokio")
